@@ -22,7 +22,7 @@ RULE = ("generated signatures (<= 5 parameters over positional-only / positional
 ASSUMPTIONS = ["payload values already have the annotated types (coercion is not part of the property)", "Pydantic v1 converter not exercised",
                "payload keys never collide with dependency parameter names"]
 EVAL_COUNTER = "bindings_judged"
-REQUIRED = ["bindings_judged", "shape_empty_string", "shape_missing_required", "shape_extra", "converters_compared", "outputs_roundtripped", "e2e_default_converter"]
+REQUIRED = ["bindings_judged", "shape_empty_string", "shape_missing_required", "shape_extra", "converters_compared", "outputs_roundtripped", "e2e_default_converter", "bindings_with_off_type_default_used"]
 CASE_TIMEOUT = 120
 
 
@@ -58,7 +58,12 @@ def gen_spec(rnd):
         has_default = rnd.random() < 0.45 or (seen_default and k in ("po", "pk"))
         if has_default and k in ("po", "pk"):
             seen_default = True
-        spec.append({"name": names[i], "kind": k, "anno": anno, "has_default": has_default, "default": rnd.choice(SAMPLE[anno]) if has_default else None})
+        default = rnd.choice(SAMPLE[anno]) if has_default else None
+        if has_default and rnd.random() < 0.3:
+            # defaults people really write: a sentinel or a value of another type than the annotation (`n: int = None`,
+            # `tags: list = ()`): when the payload has no entry the function gets its own default object, untouched
+            default = rnd.choice([None, None, (), 0, "", "7", -1.0])
+        spec.append({"name": names[i], "kind": k, "anno": anno, "has_default": has_default, "default": default, "odd_default": has_default and default not in SAMPLE[anno]})
     # dependency parameters declared positional-or-keyword must not follow defaulted ones: push them keyword-only when needed
     fixed, after_default = [], False
     for p in spec:
@@ -189,6 +194,8 @@ def sigs_case(case, out, stats, fps, samples):
         for pshape, payload in payloads_for(spec, rnd):
             data = "" if payload is None else json.dumps(payload)
             ref = reference_bind(spec, payload)
+            if ref[0] == "ok" and any(p_.get("odd_default") and p_["name"] not in (payload or {}) for p_ in spec):
+                stats["bindings_with_off_type_default_used"] += 1
             obs = {}
             for cname, conv in convs.items():
                 stats["bindings_judged"] += 1
